@@ -116,7 +116,9 @@ Record row := mkRow {
   holding : N;             (* step._holding *)
   has_hash : bool;         (* step._has_hash *)
   rclaims : claims;        (* step_resource rows *)
-  sig : N;                 (* abstract declaration signature: what can_recycle compares *)
+  sig : list N;            (* output lists (as numbers, 0 = none) whose step->file edges exist: what
+                              can_recycle compares for a detached step (edges of earlier declarations
+                              survive a partial recycle) *)
   deferred : bool;         (* oracle inputs, see ESetMeta *)
   ineed : N;
   ready : bool;
@@ -130,7 +132,7 @@ Definition set_st s x := mkRow (label x) (creator x) (attached x) s (holding x) 
 Definition set_holding h x := mkRow (label x) (creator x) (attached x) (st x) h (has_hash x) (rclaims x) (sig x) (deferred x) (ineed x) (ready x) (cmds x).
 Definition set_has_hash b x := mkRow (label x) (creator x) (attached x) (st x) (holding x) b (rclaims x) (sig x) (deferred x) (ineed x) (ready x) (cmds x).
 Definition set_rclaims c x := mkRow (label x) (creator x) (attached x) (st x) (holding x) (has_hash x) c (sig x) (deferred x) (ineed x) (ready x) (cmds x).
-Definition set_sig g x := mkRow (label x) (creator x) (attached x) (st x) (holding x) (has_hash x) (rclaims x) g (deferred x) (ineed x) (ready x) (cmds x).
+Definition set_sig (g : list N) x := mkRow (label x) (creator x) (attached x) (st x) (holding x) (has_hash x) (rclaims x) g (deferred x) (ineed x) (ready x) (cmds x).
 Definition set_meta (m : bool * N * bool) x :=
   mkRow (label x) (creator x) (attached x) (st x) (holding x) (has_hash x) (rclaims x) (sig x) (fst (fst m)) (snd (fst m)) (snd m) (cmds x).
 Definition set_cmds c x := mkRow (label x) (creator x) (attached x) (st x) (holding x) (has_hash x) (rclaims x) (sig x) (deferred x) (ineed x) (ready x) c.
@@ -293,8 +295,19 @@ Definition state_of_outcome (o : outcome) : sstate :=
 
 Definition with_db (s : sys) (d : list row) : sys := mkSys d (avail s) (threshold s).
 
+Definition add_out (g : N) (l : list N) : list N :=
+  if N.eqb g 0 then l else if existsb (N.eqb g) l then l else g :: l.
+
+(* Step.can_recycle on the output lists: the new declaration has no output (g = 0) or one *)
+Definition outs_match (l : list N) (g : N) : bool :=
+  match l with
+  | [] => N.eqb g 0
+  | [h] => N.eqb h g
+  | _ => false
+  end.
+
 Definition new_row (p : nat) (att : bool) (l g : N) (cl : claims) (nd : N) : row :=
-  mkRow l (Some p) att Pending 0 false cl g false nd false [].
+  mkRow l (Some p) att Pending 0 false cl (add_out g []) false nd false [].
 
 (* Node.reattach / Trellis.create on an existing detached node: the old creator, if it is still
    recorded, must be detached and loses its stored hash (Step.after_lost_product). *)
@@ -329,7 +342,7 @@ Definition recycle_partial (d : list row) (i p : nat) (att : bool) (x : row) (g 
       let d1 := upd d0 i (fun y => set_attached att (set_creator (Some p) y)) in
       let d2 := detach_created d1 i in
       Some (upd d2 i (fun y =>
-        set_meta (false, nd, false) (set_rclaims cl (set_sig g (set_holding 0 (set_st (of_code partial_recycle_state) y))))))
+        set_meta (false, nd, false) (set_rclaims cl (set_sig (add_out g (sig y)) (set_holding 0 (set_st (of_code partial_recycle_state) y))))))
   end.
 
 Definition step (s : sys) (e : event) : option sys :=
@@ -390,7 +403,7 @@ Definition step (s : sys) (e : event) : option sys :=
               | Some x =>
                   if attached x then None
                   else if Nat.eqb i p then None
-                  else match (if N.eqb (sig x) g then recycle_full d i p (attached px) x cl nd
+                  else match (if outs_match (sig x) g then recycle_full d i p (attached px) x cl nd
                               else recycle_partial d i p (attached px) x g cl nd) with
                        | None => None
                        | Some d' => Some (with_db s d')
